@@ -4,6 +4,7 @@ CONSTANTS
   BlockSpots <- Spots1
   CidrOverlap <- TabOverlap
   CidrCovers <- TabCovers
+  MaxFail = 0
   Ties = FALSE
   SimLen = 60
 INIT GInit
